@@ -16,6 +16,13 @@
 //                  everywhere else the line has no effect.
 //   slow <ms>      the test body really sleeps <ms> milliseconds first (real-I/O sub-mode only; <ms> <= 2000)
 //
+// Mock sub-scenario (every run): the REAL MockSupportPlugin is installed in the private registry (after the scripted plugin, so
+// its post-test action runs last).  Definition line (belongs to the latest `test`, the latest line wins):
+//   mockleft <hex function name>   the test body starts with mock().expectOneCall(name) and never calls the function nor
+//                  checks the expectations itself: the unfulfilled expectation is found by the plugin's post-test action
+//                  (only when the test has not failed otherwise), i.e. AFTER runOneTestInCurrentProcess has put the saved
+//                  current test back, and is reported through MockSupportPluginReporter -> result.addFailure.
+//
 // Composite sub-mode (`composite <1|2>` before `run`, not with realio): the registry is run with a CompositeTestOutput whose
 // outputOne_ (1) / outputTwo_ (2) is the TeamCityTestOutput writing to stdout and whose other output is a ConsoleTestOutput
 // that writes into a private sink (not stdout).  What reaches stdout is reported as `out <hex>` and must be the stream of a
@@ -26,6 +33,8 @@
 #include "h_c16_util.h"
 #include "CppUTest/TeamCityTestOutput.h"
 #include "CppUTest/CommandLineTestRunner.h"
+#include "CppUTestExt/MockSupport.h"
+#include "CppUTestExt/MockSupportPlugin.h"
 
 namespace {
 
@@ -49,6 +58,77 @@ private:
     std::string* data_;
 };
 
+// ---- scripted tests whose process stops itself / that are really slow (`childstop`, `slow`)
+std::map<size_t, bool> g_stop;          // script index -> stops itself
+std::map<size_t, unsigned> g_slow;      // script index -> milliseconds
+std::map<size_t, std::string> g_mock;   // script index -> name of the function the test expects and never calls (`mockleft`)
+pid_t g_runner_pid = 0;                 // the process running the registry in a `-p` run (0 = not such a run)
+
+class StopUtest : public Utest {
+public:
+    StopUtest(const vo::Script* s, bool stop, unsigned slow_ms, const std::string* mk) : s_(s), stop_(stop), slow_ms_(slow_ms), mock_(mk) {}
+    void testBody() CPPUTEST_OVERRIDE {
+        if (mock_) mock().expectOneCall(mock_->c_str());      // left unfulfilled and unchecked by the test itself
+        if (stop_ && g_runner_pid != 0 && getpid() != g_runner_pid) {
+            kill(getpid(), SIGSTOP);            // reported to the runner by waitpid(.., WUNTRACED); the runner sends SIGCONT
+            usleep(100 * 1000);
+        }
+        if (slow_ms_) usleep(slow_ms_ * 1000);
+        vo::run_actions(s_->acts);
+    }
+private:
+    const vo::Script* s_; bool stop_; unsigned slow_ms_; const std::string* mock_;
+};
+
+class StopShell : public UtestShell {
+public:
+    StopShell(const vo::Script* s, bool stop, unsigned slow_ms, const std::string* mk)
+        : UtestShell(s->group.c_str(), s->name.c_str(), s->file.c_str(), s->line), s_(s), stop_(stop), slow_ms_(slow_ms), mock_(mk) {}
+    Utest* createTest() CPPUTEST_OVERRIDE { return new StopUtest(s_, stop_, slow_ms_, mock_); }
+private:
+    const vo::Script* s_; bool stop_; unsigned slow_ms_; const std::string* mock_;
+};
+
+// vo::Built with StopShell for the marked scripts and the real MockSupportPlugin installed
+struct Built20 {
+    std::vector<UtestShell*> shells;
+    TestRegistry reg;
+    vo::ScriptedPlugin plugin;
+    MockSupportPlugin mockPlugin;
+    explicit Built20(const vo::Registry& r) : mockPlugin("MockSupportPlugin") {
+        for (size_t i = 0; i < r.scripts.size(); i++) {
+            const vo::Script* s = &r.scripts[i];
+            bool stop = g_stop.count(i) != 0;
+            unsigned slow = g_slow.count(i) ? g_slow[i] : 0;
+            const std::string* mk = g_mock.count(i) ? &g_mock[i] : 0;
+            if (s->ignored) shells.push_back(new vo::ScriptedIgnoredShell(s));
+            else if (stop || slow || mk) shells.push_back(new StopShell(s, stop, slow, mk));
+            else shells.push_back(new vo::ScriptedShell(s));
+        }
+        for (size_t i = shells.size(); i > 0; i--) reg.addTest(shells[i - 1]);
+        for (size_t i = 0; i < shells.size(); i++) plugin.scripts[shells[i]] = &r.scripts[i];
+        reg.installPlugin(&plugin);
+        reg.installPlugin(&mockPlugin);      // installed last = its post-test action runs last (after the scripted plugin's)
+    }
+    ~Built20() { for (size_t i = 0; i < shells.size(); i++) delete shells[i]; }
+};
+
+// vo::run_registry with Built20 (the CommandLineTestRunner's repeat loop on one output object)
+void run_registry20(const vo::Registry& r, TestOutput& out) {
+    vo::stub_clock();
+    out.verbose(r.verbosity == 2 ? TestOutput::level_veryVerbose : r.verbosity == 1 ? TestOutput::level_verbose : TestOutput::level_quiet);
+    Built20 b(r);
+    TestFilter filter(r.filter.c_str());
+    if (r.strict) filter.strictMatching();
+    if (r.invert) filter.invertMatching();
+    if (r.has_filter) b.reg.setNameFilters(&filter);
+    for (int i = 1; i <= r.repeat; i++) {
+        out.printTestRun((size_t) i, (size_t) r.repeat);
+        TestResult result(out);
+        b.reg.runAllTests(result);
+    }
+}
+
 void run_composite(const vo::Registry& reg, int position) {
     std::string sink;
     g_stream.clear();
@@ -58,61 +138,11 @@ void run_composite(const vo::Registry& reg, int position) {
         TestOutput* other = new SinkOutput(&sink);
         if (position == 1) { comp.setOutputOne(tc); comp.setOutputTwo(other); }
         else { comp.setOutputOne(other); comp.setOutputTwo(tc); }
-        vo::run_registry(reg, comp);
+        run_registry20(reg, comp);
     }
     vh::emit("out %s", vh::hex(g_stream).c_str());
     vh::emit("sink %d", sink.empty() ? 0 : 1);
 }
-
-// ---- scripted tests whose process stops itself / that are really slow (`childstop`, `slow`)
-std::map<size_t, bool> g_stop;          // script index -> stops itself
-std::map<size_t, unsigned> g_slow;      // script index -> milliseconds
-pid_t g_runner_pid = 0;                 // the process running the registry in a `-p` run (0 = not such a run)
-
-class StopUtest : public Utest {
-public:
-    StopUtest(const vo::Script* s, bool stop, unsigned slow_ms) : s_(s), stop_(stop), slow_ms_(slow_ms) {}
-    void testBody() CPPUTEST_OVERRIDE {
-        if (stop_ && g_runner_pid != 0 && getpid() != g_runner_pid) {
-            kill(getpid(), SIGSTOP);            // reported to the runner by waitpid(.., WUNTRACED); the runner sends SIGCONT
-            usleep(100 * 1000);
-        }
-        if (slow_ms_) usleep(slow_ms_ * 1000);
-        vo::run_actions(s_->acts);
-    }
-private:
-    const vo::Script* s_; bool stop_; unsigned slow_ms_;
-};
-
-class StopShell : public UtestShell {
-public:
-    StopShell(const vo::Script* s, bool stop, unsigned slow_ms)
-        : UtestShell(s->group.c_str(), s->name.c_str(), s->file.c_str(), s->line), s_(s), stop_(stop), slow_ms_(slow_ms) {}
-    Utest* createTest() CPPUTEST_OVERRIDE { return new StopUtest(s_, stop_, slow_ms_); }
-private:
-    const vo::Script* s_; bool stop_; unsigned slow_ms_;
-};
-
-// vo::Built with StopShell for the marked scripts
-struct Built20 {
-    std::vector<UtestShell*> shells;
-    TestRegistry reg;
-    vo::ScriptedPlugin plugin;
-    explicit Built20(const vo::Registry& r) {
-        for (size_t i = 0; i < r.scripts.size(); i++) {
-            const vo::Script* s = &r.scripts[i];
-            bool stop = g_stop.count(i) != 0;
-            unsigned slow = g_slow.count(i) ? g_slow[i] : 0;
-            if (s->ignored) shells.push_back(new vo::ScriptedIgnoredShell(s));
-            else if (stop || slow) shells.push_back(new StopShell(s, stop, slow));
-            else shells.push_back(new vo::ScriptedShell(s));
-        }
-        for (size_t i = shells.size(); i > 0; i--) reg.addTest(shells[i - 1]);
-        for (size_t i = 0; i < shells.size(); i++) plugin.scripts[shells[i]] = &r.scripts[i];
-        reg.installPlugin(&plugin);
-    }
-    ~Built20() { for (size_t i = 0; i < shells.size(); i++) delete shells[i]; }
-};
 
 void run_real_io(const vo::Registry& reg) {
     fflush(stdout); fflush(stderr);
@@ -168,7 +198,7 @@ void run_real_io(const vo::Registry& reg) {
 void run_case(const vh::Case& c) {
     vo::Registry reg;
     int composite = 0;
-    g_stop.clear(); g_slow.clear();
+    g_stop.clear(); g_slow.clear(); g_mock.clear();
     if (!g_real_fputs) { g_real_fputs = PlatformSpecificFPuts; g_real_flush = PlatformSpecificFlush; }
     PlatformSpecificFPuts = capture_fputs;
     PlatformSpecificFlush = no_flush;
@@ -181,7 +211,7 @@ void run_case(const vh::Case& c) {
             g_stream.clear();
             {
                 TeamCityTestOutput out;
-                vo::run_registry(reg, out);
+                run_registry20(reg, out);
             }
             vh::emit("out %s", vh::hex(g_stream).c_str());
         }
@@ -191,6 +221,10 @@ void run_case(const vh::Case& c) {
         }
         else if (w[0] == "slow" && w.size() == 2 && vo::is_number(w[1]) && vh::to_u64(w[1]) <= 2000) {
             if (!reg.scripts.empty()) g_slow[reg.scripts.size() - 1] = (unsigned) vh::to_u64(w[1]);
+            vh::emit_op(vo::join(w));
+        }
+        else if (w[0] == "mockleft" && w.size() == 2 && vo::is_hex(w[1])) {
+            if (!reg.scripts.empty()) g_mock[reg.scripts.size() - 1] = vh::unhex(w[1]);
             vh::emit_op(vo::join(w));
         }
         else if (w[0] == "composite" && w.size() == 2 && (w[1] == "1" || w[1] == "2")) { composite = w[1][0] - '0'; vh::emit_op(vo::join(w)); }
